@@ -10,6 +10,14 @@ CHECKS={
    "Complete run-time enumeration of the 3-permission universe (caller set x default set x attachment mode x required permission x shape) against the real auth package, every header/query form x verifier outcome through auth.Handler, plus end-to-end ws/http clients; an independent model decides run/deny and an invocation counter observes the implementation.",
    "Permissions are compared only for equality, so the 3-element universe is representative; the HTTP handler is driven through httptest (no TLS, no proxies).","2/C19"),
 }
+CHECKS.update({
+ "C03": ("fault_enumeration","fault-injecting frame proxy + clock-free lost-call oracle over hooked executions",
+   "Enumerates fault kind x direction x frame ordinal x byte-position class through a frame-aware TCP proxy, with calls in flight, issued right after the injection, issued inside the reconnect window (client parked at the redial hook) and after recovery, plus double faults and the targeted windows 'read error inside a frame' and 'response ∥ cancel ∥ loss'; a call counts as lost only when it is outstanding, no handler runs for it and a later probe round-tripped on the same client. Runs under the race detector with seeded hook noise.",
+   "Faults strike at the proxy's frame/byte granularity; executions are sampled, not all schedules; 8 s scheduling grace.","2/C03"),
+ "C04": ("fault_enumeration","per-token execution counters + proxy frame log under enumerated faults",
+   "Same fault enumeration as C03 plus fault-free ws/http/custom lanes and HTTP byte-position cuts; handler entry counters per unique call token and request frames per token seen by the proxy are compared with what each caller received (at-most-once, exactly-once on answer, notifications id-less/response-less, no library-initiated re-send). A retry-tagged contrast lane proves the re-send monitor can see re-sends.",
+   "Tokens travel in params; execution = entry into the handler method.","2/C04"),
+})
 NA={}
 def main():
     props=[json.loads(l)["id"] for l in open(os.path.join(V,"properties.jsonl"))]
